@@ -196,10 +196,24 @@ func c06Harness(x *mc.Exec) {
 	}
 }
 
+// c07Containers adds, for the byte-order relation only, a TIFF block behind 0..69 leading
+// bytes read through exif2.Parse (the header search runs over the leading bytes).
+var c07Containers = append(append([]containerKind{}, containers...), containerKind{
+	name: "leading bytes + TIFF", imageType: "image/tiff", nSurround: 70,
+	entries: []entryPoint{{"exif2.Parse", exif2Parse}},
+	build: func(rec *gen.Rec, lay gen.Layout, bo binary.ByteOrder, s int) *gen.Doc {
+		t := gen.EncodeTIFF(rec, lay, bo, gen.AllDirs)
+		pre := make([]byte, s)
+		for i := range pre {
+			pre[i] = "leading bytes without any signature; "[i%37]
+		}
+		return &gen.Doc{B: append(pre, t.B...)}
+	}})
+
 func c07Harness(x *mc.Exec) {
 	pristine()
-	ci := x.All("container", len(containers))
-	c := containers[ci]
+	ci := x.All("container", len(c07Containers))
+	c := c07Containers[ci]
 	full := x.All("base-record", 2) == 0
 	rec := gen.ChooseRecord(x, full)
 	x.Note("shape", gen.ChooseShape(x, rec))
